@@ -12,7 +12,7 @@
 From Coq.Strings Require Import String.
 From EV Require Import Base.Bytes Base.Store Base.Monad gen.Consts Codec.Types
   Ledger.Types Ledger.Env Ledger.Funcs Ledger.Transfers Corr.Exec
-  LedgerProofs.Faults LedgerProofs.FaultsSim.
+  LedgerProofs.Faults LedgerProofs.FaultsSim LedgerProofs.FaultsSaved.
 
 (* ---- pins: what a fault point is in the model ---- *)
 Example C17_dep_is_the_fault_point : forall E s,
